@@ -193,8 +193,6 @@ def random_walk(conf, driver, res, r, pool, length, bias):
                 wgt = 0.4
             elif k == 'connfail':
                 wgt = 0.8
-            if pending and (k in ('start', 'stop') or (k == 'fire' and ev.get('t') == 'retry')):
-                wgt *= 0.05      # the known multi-connection findings: visit them, but rarely
             weights.append(wgt)
         ev = r.choices(cands, weights)[0]
         if ev['k'] == 'chunk' and r.random() < 0.25:
